@@ -31,7 +31,7 @@ struct gm_spec {
 	uint8_t lookahead_mode; /* 0 none (delays may be one ulp), 1 small, 2 large */
 	uint8_t zero_delay;     /* probability (/256) that a send is zero-delay (if its ttl allows) */
 	uint8_t send_prob;      /* probability (/256) that a SEND action fires */
-	uint8_t dest_mode;      /* 0 uniform, 1 ring neighbour, 2 hot spot (fan-in to LP 0), 3 self */
+	uint8_t dest_mode;      /* 0 uniform, 1 ring neighbour, 2 hot spot (fan-in to LP 0), 3 self, 4 drip (rare sends to LP 0) */
 	uint8_t payload_mode;   /* 0 none, 1 small (<=32), 2 mixed incl. >32, 3 big (4000) occasionally */
 	uint8_t n_rules;
 	struct gm_rule rules[GM_MAXRULES];
